@@ -8,7 +8,7 @@ From Coq Require Import List NArith Bool.
 Import ListNotations.
 Require Import ZV.Skel ZV.gen.Skeleton ZV.tie.RefTie.
 Open Scope N_scope.
-Ltac tvm := timeout 60 (vm_compute; repeat split; reflexivity).
+Ltac tvm := timeout 240 (vm_compute; repeat split; reflexivity).
 
 Definition calls (s : sk) : list N := flat_map (fun e => match e with Some f => [f] | None => [] end) (flat s).
 Definition ends_in_return (l : list sk) : bool := match last l (KSeq []) with KRet _ => true | _ => false end.
